@@ -3,6 +3,7 @@ pub mod xml;
 pub mod biff8;
 pub mod cfb;
 pub mod ods;
+pub mod ovba;
 pub mod xlsb;
 pub mod xlsx;
 pub mod zipw;
